@@ -190,6 +190,14 @@ func c08RuntimeTyped(r *rt.Rec, rng *rand.Rand, k, n, constructs int) {
 			r.Nontrivial(all[i])
 		}
 	}
+	nulls := gen.NullReuseStatements()
+	for i := k; i < len(nulls); i += n {
+		sg := c08Exec(r, nulls[i], 1+i%2)
+		if sg >= bq.StageExecute {
+			r.Nontrivial(nulls[i])
+			r.Count("null_reuse_statements_executed", 1)
+		}
+	}
 	data := gen.AllTriples(c08Data)
 	for i := 0; i < constructs; i++ {
 		text := gen.IllTypedConstruct(rng, []string{"construct", "deconstruct"}[rng.Intn(2)], data).Text()
@@ -198,6 +206,44 @@ func c08RuntimeTyped(r *rt.Rec, rng *rand.Rand, k, n, constructs int) {
 			r.Nontrivial(text)
 			r.Count("ill_typed_constructs_executed", 1)
 		}
+	}
+}
+
+// c08Truncations: every prefix of a generated statement that ends at a token
+// boundary (the text stops right after a token, with nothing behind it), and
+// two whole statements in one text.
+func c08Truncations(r *rt.Rec, rng *rand.Rand, n int) {
+	data := gen.AllTriples(c08Data)
+	for i := 0; i < n; i++ {
+		text := gen.RandomStatement(rng, data)
+		if i%4 == 0 {
+			// a HAVING comparison with a time or a number right at the end
+			text = fmt.Sprintf("SELECT ?s, ?t FROM ?g1 WHERE { ?s \"p\"@[?t] ?o } HAVING ?t %s %s;", []string{"<", ">", "="}[rng.Intn(3)], []string{"2016-01-01T00:00:00Z", "2010-03-10T00:00:00-08:00", "2016-01-01T00:00:00.000000001Z"}[rng.Intn(3)])
+		} else if i%4 == 2 {
+			text = fmt.Sprintf("SELECT ?s FROM ?g1 WHERE { ?s ?p ?o } %s %s;", []string{"BEFORE", "AFTER"}[rng.Intn(2)], "2016-01-01T00:00:00Z")
+		}
+		toks, ok := gram.Lex(text, 0)
+		if !ok {
+			continue
+		}
+		spans, ok := embed(text, toks)
+		if !ok {
+			continue
+		}
+		for j := range toks {
+			if toks[j].Type == lexer.ItemEOF || spans[j].end == 0 {
+				continue
+			}
+			sg := c08Exec(r, text[:spans[j].end], 1)
+			if j >= 3 || sg >= bq.StageExecute {
+				r.NontrivialDistinct(1)
+			}
+		}
+		// two statements in one text, and a statement followed by a few stray tokens
+		other := gen.RandomStatement(rng, data)
+		c08Exec(r, text+" "+other, 1)
+		c08Exec(r, text+" "+text+" "+other, 0)
+		c08Exec(r, text+" ?a ?b ?c ?d ?e ?f ?g ?h", 1)
 	}
 }
 
@@ -236,14 +282,14 @@ func init() {
 	register(&rt.Check{
 		ID:    "C08",
 		Level: "exploration",
-		Rule: "statement texts against an empty store, a populated memory store and the populated store wrapped in the memoizer: (a) every token sequence up to length L over the 55 token kinds rendered to text (L=2 quick, 3 thorough; complete), (b) generated statements of all eight kinds (vocabulary hitting and missing the data, LIMIT 0/1/-1/2^63-1/float/text, aggregates over empty patterns, bindings reused across S/P/O/ID/TYPE/AT positions, OPTIONAL, bounds), (b2) statements that go wrong only while rows are processed: aggregates (sum / count / count distinct) over columns mixing numeric literals with nodes, text, predicates and NULL in both FROM orders, CONSTRUCT / DECONSTRUCT over satisfiable patterns with exactly one ill-kinded binding in one template slot (first or later pair), (c) character- and token-level mutations of (b), (d) random bytes, random UTF-8 and random keyword salad; a sample also under -race; " +
+		Rule: "statement texts against an empty store, a populated memory store and the populated store wrapped in the memoizer: (a) every token sequence up to length L over the 55 token kinds rendered to text (L=2 quick, 3 thorough; complete), (b) generated statements of all eight kinds (vocabulary hitting and missing the data, LIMIT 0/1/-1/2^63-1/float/text, aggregates over empty patterns, bindings reused across S/P/O/ID/TYPE/AT positions, OPTIONAL, bounds), (b2) statements that go wrong only while rows are processed: aggregates (sum / count / count distinct) over columns mixing numeric literals with nodes, text, predicates and NULL in both FROM orders, CONSTRUCT / DECONSTRUCT over satisfiable patterns with exactly one ill-kinded binding in one template slot (first or later pair), bindings left NULL by an OPTIONAL clause reused as subject / predicate / object / anchor / bound limit and in HAVING, ORDER BY, GROUP BY, aggregates and templates, (b3) every prefix of a statement that ends right after a token, two statements in one text, a statement followed by stray tokens, (c) character- and token-level mutations of (b), (d) random bytes, random UTF-8 and random keyword salad; a sample also under -race; " +
 			"monitor per statement, in a journaling worker process: recover() in the calling goroutine, process exit (panic in an engine goroutine, fatal error, log.Fatal), all-goroutines-blocked and hard watchdog, goroutine-leak snapshot after return, table-xor-error; non-trivial = reached Execute (parsed and planned) or was rejected after >=3 tokens; distinct by text",
 		Assume: []string{"termination is restated as bounded progress (hard watchdog 120 s per batch, cases take milliseconds)", "a goroutine counts as started on behalf of the call if it was created by badwolf code after the pre-call snapshot"},
 		Floor:  500,
 		Phases: func(tier string, seed int64) []rt.Phase {
-			maxLen, g, m, rn, rc, itc := 2, 3000, 3000, 2000, 240, 40
+			maxLen, g, m, rn, rc, itc, trn := 2, 3000, 3000, 2000, 240, 40, 4
 			if tier == "thorough" {
-				maxLen, g, m, rn, rc, itc = 3, 50000, 50000, 50000, 6000, 600
+				maxLen, g, m, rn, rc, itc, trn = 3, 50000, 50000, 50000, 6000, 600, 60
 			}
 			kinds := gram.AllKinds()
 			per := 60
@@ -252,6 +298,7 @@ func init() {
 				{Name: "generated", N: g / per, Run: func(i int, r *rt.Rec) { c08Generated(r, gen.Rng(seed, "c08g", i), per, false) }},
 				{Name: "mutated", N: m / per, Run: func(i int, r *rt.Rec) { c08Generated(r, gen.Rng(seed, "c08m", i), per, true) }},
 				{Name: "runtime-typed", N: 16, Run: func(i int, r *rt.Rec) { c08RuntimeTyped(r, gen.Rng(seed, "c08t", i), i, 16, itc) }},
+				{Name: "truncations", N: 16, Run: func(i int, r *rt.Rec) { c08Truncations(r, gen.Rng(seed, "c08u", i), trn) }},
 				{Name: "random", N: rn / per, Run: func(i int, r *rt.Rec) { c08Random(r, gen.Rng(seed, "c08r", i), per) }},
 				{Name: "race-sample", N: rc / per, Race: true, Run: func(i int, r *rt.Rec) { c08Generated(r, gen.Rng(seed, "c08x", i), per, i%2 == 1) }},
 			}
